@@ -5,3 +5,5 @@ import Lace.Spec.ISA
 import Lace.Model.VM
 import Lace.Props.C02
 import Lace.Props.C03
+import Lace.Model.Cli
+import Lace.Props.C06
